@@ -304,6 +304,7 @@ func (p *AP) Apply(c Call) {
 		s := strings.ToLower(c.Scheme)
 		p.Schemes[s] = addSet(p.Schemes[s], c.Fid)
 	case "AllowURLSchemesMatching":
+		p.Initialized = true
 		p.SchemePats = addSet(p.SchemePats, c.Pat)
 	case "RewriteSrc":
 		p.Rewriter = c.Fid
